@@ -21,11 +21,12 @@ Inductive c14_case :=
 | CMem (id : N) (i j : N) (pres_j : bool) (o : obs)      (* pool[i] ~ pool[j]; is the right operand materialised *)
 | CMem2 (id : N) (i j k : N) (o : obs)                   (* pool[i] ~ [pool[j], pool[k]] *)
 | CTriple (id : N) (i j k : N) (o : list obs)
-| COrder (id : N) (ix : list N) (o : obs).               (* [pool[i] | i in ix].order(x->x), at most 12 elements *)
+| COrder (id : N) (ix : list N) (o : obs)
+| CGroup (id : N) (ix : list N) (o : obs).               (* [pool[i] | i in ix].groupByEqual(k->k).size() *)               (* [pool[i] | i in ix].order(x->x), at most 12 elements *)
 
 Definition c14_id (c : c14_case) : N :=
   match c with CPair id _ _ _ _ => id | CMem id _ _ _ _ => id | CMem2 id _ _ _ _ => id | CTriple id _ _ _ _ => id
-          | COrder id _ _ => id end.
+          | COrder id _ _ => id | CGroup id _ _ => id end.
 
 Definition getv (pool : list value) (i : N) : value := nth (N.to_nat i) pool (VBool false).
 
@@ -120,6 +121,7 @@ Definition c14_im (pool : list value) (c : c14_case) : bool :=
   | CMem2 _ i j k o => agree_bool (calc op_in (getv pool i) (VList [getv pool j; getv pool k])) o
   | CTriple _ i j k o => triple_im (getv pool i) (getv pool j) (getv pool k) o
   | COrder _ ix o => let l := map (getv pool) ix in agree_val l (order_model12 l) o
+  | CGroup _ ix o => agree_n (group_eq_model (map (getv pool) ix)) o
   end.
 
 (* ---------- representation independence (run-level specification) ----------
@@ -199,6 +201,7 @@ Definition c14_is (pool : list value) (c : c14_case) : bool :=
   | CTriple _ i j k o =>
       triple_is (getv pool i) (getv pool j) (getv pool k) o && (triple_law o =? 0)
   | COrder _ ix o => let l := map (getv pool) ix in order_allowed l (obs_val l o)
+  | CGroup _ ix o => group_allowed [] (map (getv pool) ix) (obs_n o)
   end.
 
 (* diagnostics for the harness log: position (from 1) of the first answer of a direction that the
